@@ -6,6 +6,7 @@ LEVEL = "exploration"
 N_QUICK, N_THOROUGH = 6400, 400000
 T_QUICK, T_THOROUGH = 60, 1200
 FLOORS = {"histories": 1000, "growths": 200, "frees": 5000, "stamp_checks": 20000}
+FLOORS_THOROUGH = {"suite:runs": 1, "suite:allocs": 300}
 RULE = ("random walks over {allocate(size, aligned|packed), free(live), grow(n)} x capacity x alignment x "
         "grow_step x both CPU buffer kinds, plus exhaustive small-scope histories (capacity<=16, 4 sizes, "
         "depth 4 quick / 5 thorough); after EVERY event: bounds, alignment, pairwise disjointness, and a "
@@ -21,3 +22,9 @@ def run_case(w, rng):
         ac.enum_histories(w, i * w.nshards + shard, 5 if w.tier == "thorough" else 4, True, False)
     else:
         ac.random_history(w, rng, True, False)
+
+
+def extra_workload(w):
+    """the repository's own test-suite run under the same monitors (shard 0 only)"""
+    if w.tier == "thorough":
+        ac.suite_under_monitors(w)
